@@ -4,6 +4,7 @@ import Driver.C07
 import Driver.C08
 import Driver.C01
 import Driver.Verbs
+import Driver.C03
 namespace Driver
 
 def dispatch (op : String) : Option Handler :=
@@ -21,6 +22,8 @@ def dispatch (op : String) : Option Handler :=
   | "f64" => some C07.f64
   | "f2i" => some C07.f2i
   | "verbs" => some Verbs.verbs
+  | "readops" => some C03.readops
+  | "bystand" => some C03.bystand
   | "pair" => some Verbs.pair
   | "rt" => some C01.rt
   | "rd" => some C01.rd
@@ -37,7 +40,11 @@ def processLine (line : String) : String :=
     | op :: args =>
       match dispatch op with
       | some h =>
-        match h args impl with
+        -- "exit": the real code ended the process with a clean `mlr:` error exit (allowed);
+        -- "crash": it died with a fatal Go error inside the harness (never allowed)
+        if impl == "exit" then "OK"
+        else if impl == "crash" then "SPEC tag=- want=no-crash"
+        else match h args impl with
         | some v => render impl v
         | none => "BAD args"
       | none => "BAD op"
